@@ -368,6 +368,43 @@ class CaseVariants(Part):
         return res
 
 
+class AsHashEdges(Part):
+    name = "as_numbers_whose_hash_lands_on_an_edge"
+    desc = "listed AS numbers under an owned hash that lands on the number itself / on the block ends, and the whole private block under real md5: every line still comes back"
+
+    def __init__(self, tier, seed):
+        self.tier, self.seed = tier, seed
+
+    def cases(self):
+        return [{"mode": "stub", "n": n} for n in ("0", "1", "64511", "64512", "65000", "65535", "65536", "4199999999",
+                                                    "4200000000", "4294967295")] + \
+               [{"mode": "real", "salt": s} for s in ("saltForTest", "salt1", "seed%d" % self.seed, "", "x")]
+
+    def run(self, case):
+        from mc import refs
+
+        res = Res()
+        if case["mode"] == "stub":
+            n = case["n"]
+            lo, hi = refs.as_block(int(n))
+            for target in sorted({int(n), lo, hi, min(hi, int(n) + 1), max(lo, int(n) - 1)}):
+                # a hash value whose residue in the block is exactly `target`
+                with seams.Md5Stub(lambda data, t=target, lo=lo: t - lo) as stub:
+                    judge(res, ["router bgp " + n, n, " neighbor x remote-as %s;" % n, "as-path %s_%s" % (n, n)],
+                          "saltForTest", dict(anon_pwd=False, anon_ip=False, as_numbers=[n]),
+                          {"mode": "stub", "n": n}, "hash-lands-on-%s" % (
+                              "itself" if target == int(n) else "block-start" if target == lo else
+                              "block-end" if target == hi else "neighbour"))
+                res.count("md5_intercepted", stub.intercepted)
+        else:
+            nums = [str(x) for x in range(64512, 65536)]
+            feats = dict(anon_pwd=False, anon_ip=False, as_numbers=nums)
+            lines = ["router bgp " + x for x in nums] if "lines" not in case else case["lines"]
+            judge(res, lines, case["salt"], feats, {"mode": "real", "salt": case["salt"]}, "private-block")
+        res.samples.append(case)
+        return res
+
+
 def parts(tier, seed):
     return [ShortStrings(tier, seed), SlotFillers(tier, seed), LongRuns(tier, seed), Salts(tier, seed),
-            FileLevel(tier, seed), Volume(tier, seed), CaseVariants(tier, seed)]
+            FileLevel(tier, seed), Volume(tier, seed), CaseVariants(tier, seed), AsHashEdges(tier, seed)]
